@@ -5,6 +5,7 @@ import (
 
 	"github.com/aperturerobotics/bifrost/peer"
 	"github.com/aperturerobotics/util/promise"
+	"github.com/pkg/errors"
 )
 
 // Dialer represents a ongoing attempt to dial an address
@@ -67,6 +68,26 @@ func (d *Dialer) Execute() {
 		le.WithError(err).Warn("quic: failed to dial peer")
 		d.result.SetResult(nil, err)
 		return
+	}
+
+	// The session is negotiated without a peer id constraint: refuse it here if
+	// the peer that answered at the address is not the peer we were asked to dial.
+	if d.peerID != "" {
+		remotePeerID, _, err := DetermineSessionIdentity(rconn)
+		if err == nil && remotePeerID != d.peerID {
+			err = errors.Errorf(
+				"peer id mismatch dialing %s: expected %s, got %s",
+				d.addr,
+				d.peerID.String(),
+				remotePeerID.String(),
+			)
+		}
+		if err != nil {
+			le.WithError(err).Warn("quic: rejecting session with unexpected peer")
+			_ = rconn.CloseWithError(500, "unexpected peer id")
+			d.result.SetResult(nil, err)
+			return
+		}
 	}
 
 	d.result.SetResult(d.t.HandleSession(ctx, rconn))
